@@ -62,6 +62,15 @@ def prepare(prop, tier, seed, r):
                                             flags=["-compress_paths", "-generate_simple_unions", "-ignore_shadow_schema_paths",
                                                    "-list_builder_key_threshold=2"],
                                             attrs=dict(Compressed=True, Wrapper=False, Shadow=True))
+        # no wildcard accessors at all, with the simplify option (keys must still be rendered)
+        cfgs["vtoc/C-paths-nowild"] = dict(pkg="vtocpn", files=["openconfig-vtoc.yang"], pathstructs=True,
+                                           flags=["-compress_paths", "-generate_simple_unions", "-ignore_shadow_schema_paths",
+                                                  "-generate_wildcard_paths=false", "-simplify_wildcard_paths=true"],
+                                           attrs=dict(Compressed=True, Wrapper=False, Shadow=True, Simplify=True))
+        cfgs["vtoc/C-paths-simplify"] = dict(pkg="vtocps", files=["openconfig-vtoc.yang"], pathstructs=True,
+                                             flags=["-compress_paths", "-generate_simple_unions", "-ignore_shadow_schema_paths",
+                                                    "-simplify_wildcard_paths=true"],
+                                             attrs=dict(Compressed=True, Wrapper=False, Shadow=True, Simplify=True))
     cfgs.update(random_cfgs(prop, tier, seed))
     gen, ok = {}, {}
     for name, spec in cfgs.items():
